@@ -122,6 +122,7 @@ def run(ctx, nrand=None):
         cases += list(itertools.islice(small_configs(3, 1, True), 0, None, 7))
         nrand = nrand or 20000
     cases += [random_graph(ctx.rng) for _ in range(nrand)]
+    cases += [gen.gen_config_wild(ctx.rng) for _ in range(nrand // 2)]
     violations, corr_fail, nontriv = [], [], set()
     dist = {"cyclic": 0, "acyclic": 0, "self_loops": 0, "through_tag": 0, "through_decorator": 0, "param_cycles": 0, "rejected_earlier": 0}
     accepted = []
